@@ -1,3 +1,4 @@
+import Rtsp.Generated.Facts.Ledger
 /-
 # Resource ledger of the RTSP server (property C11)
 
@@ -17,6 +18,7 @@ class `known`), all peers share one IP address (the harness runs on loopback), h
 tunnel wait (also `idle`).  Goroutines, sockets and the Go runtime are not modelled.
 -/
 namespace Rtsp.Ledger
+open Rtsp.Facts.Ledger
 
 abbrev ConnId := Nat
 abbrev SessId := Nat
@@ -296,7 +298,41 @@ inductive Action
 reader closes the connection after the response was written. -/
 abbrev Verdict := Nat × Bool × Action
 
-def bad : Verdict := (400, true, .nothing)
+def bad : Verdict := (statusBadRequest, true, .nothing)
+
+/-- SETUP, last part: the media the URL names, `readerAdd`, the new `serverSessionMedia` -/
+def setupMedia (st : State) (s : Sess) (r : Req) (t : Tr) (play : Bool) (proto : Proto) : Verdict :=
+  match (if play then r.track
+         else match r.recCtl with
+           | some ctl => if r.recPath == s.path then s.announced.findIdx? (· == ctl) else none
+           | none => none) with
+  | none => bad
+  | some idx =>
+    if s.medias.any (·.idx == idx) then bad else
+    if s.state == .initial && proto == .udp && portTaken st s.id (t.ports.getD (0, 0)).1 then bad else
+    (statusOK, false, .setup proto t.secure
+      { idx := idx,
+        rtp := if proto == .udp then (t.ports.getD (0, 0)).1 else 0,
+        rtcp := if proto == .udp then (t.ports.getD (0, 0)).2 else 0,
+        chan := if proto == .tcp then (match t.inter with | some (a, _) => a | none => freeChan s) else 0 }
+      (if play then r.setupPath.getD 0 else s.path))
+
+/-- SETUP, middle part: the checks on the chosen transport, in the order of the code -/
+def setupChecks (st : State) (s : Sess) (r : Req) (t : Tr) (play : Bool) (proto : Proto) : Verdict :=
+  if play && r.setupPath.isNone then bad else
+  if s.state == .prePlay && r.setupPath != some s.path then bad else
+  if t.secure && !r.keyMgmt then bad else
+  if s.proto.isSome && s.proto != some (proto, t.secure) then bad else
+  if proto == .udp && t.ports.isNone then bad else
+  if proto == .tcp && (match t.inter with
+      | some (a, b) => a + 1 != b || chanInUse s a
+      | none => false) then bad else
+  if play && !(t.mode == 0 || t.mode == 1) then bad else
+  if !play && proto == .mcast then (statusUnsupportedTransport, false, .nothing) else
+  if !play && t.mode != 2 then bad else
+  -- OnSetup
+  if play && !r.setupKnown then (statusNotFound, false, .nothing) else
+  setupMedia st s r t play proto
 
 /-- SETUP in `ServerSession.handleRequestInner` -/
 def decideSetup (st : State) (c : Conn) (s : Sess) (r : Req) : Verdict :=
@@ -305,57 +341,25 @@ def decideSetup (st : State) (c : Conn) (s : Sess) (r : Req) : Verdict :=
   | none => bad
   | some trs =>
   match trs.find? (trSupported st.cfg c) with
-  | none => (461, false, .nothing)
-  | some t =>
-  let play := s.state == .initial || s.state == .prePlay
-  if play && r.setupPath.isNone then bad else
-  if s.state == .prePlay && r.setupPath != some s.path then bad else
-  let proto := trProto t
-  if t.secure && !r.keyMgmt then bad else
-  if s.proto.isSome && s.proto != some (proto, t.secure) then bad else
-  if proto == .udp && t.ports.isNone then bad else
-  if proto == .tcp && (match t.inter with
-      | some (a, b) => a + 1 != b || chanInUse s a
-      | none => false) then bad else
-  if play && !(t.mode == 0 || t.mode == 1) then bad else
-  if !play && proto == .mcast then (461, false, .nothing) else
-  if !play && t.mode != 2 then bad else
-  -- OnSetup
-  if play && !r.setupKnown then (404, false, .nothing) else
-  let medi : Option Nat :=
-    if play then r.track
-    else match r.recCtl with
-      | some ctl => if r.recPath == s.path then s.announced.findIdx? (· == ctl) else none
-      | none => none
-  match medi with
-  | none => bad
-  | some idx =>
-  if s.medias.any (·.idx == idx) then bad else
-  let ports := t.ports.getD (0, 0)
-  if s.state == .initial && proto == .udp && portTaken st s.id ports.1 then bad else
-  let m : Media :=
-    { idx := idx,
-      rtp := if proto == .udp then ports.1 else 0,
-      rtcp := if proto == .udp then ports.2 else 0,
-      chan := if proto == .tcp then (match t.inter with | some (a, _) => a | none => freeChan s) else 0 }
-  (200, false, .setup proto t.secure m (if play then r.setupPath.getD 0 else s.path))
+  | none => (statusUnsupportedTransport, false, .nothing)
+  | some t => setupChecks st s r t (s.state == .initial || s.state == .prePlay) (trProto t)
 
 /-- `ServerSession.handleRequestInner` -/
 def decideInSession (st : State) (c : Conn) (s : Sess) (r : Req) : Verdict :=
   if s.tcpConn.isSome && s.tcpConn != some c.id then bad else
   match r.method with
-  | .options => (200, false, .nothing)
+  | .options => (statusOK, false, .nothing)
   | .announce =>
     if s.state != .initial then bad else
     if r.ctype != .sdp then bad else
     match r.sdp with
-    | .ok controls => (200, false, .announce r.path controls)
+    | .ok controls => (statusOK, false, .announce r.path controls)
     | _ => bad
   | .setup => decideSetup st c s r
   | .play =>
     if !(s.state == .prePlay || s.state == .play) then bad else
     if s.state == .prePlay && r.path != s.path then bad else
-    (200, false, if s.state == .play then .nothing else .play)
+    (statusOK, false, if s.state == .play then .nothing else .play)
   | .record =>
     if s.state != .preRecord then bad else
     if s.medias.length != s.announced.length then bad else
@@ -363,14 +367,14 @@ def decideInSession (st : State) (c : Conn) (s : Sess) (r : Req) : Verdict :=
     -- `sm.start()`: the firewall-opening packets cannot be sent to an unusable port; the request
     -- fails and the state change is undone
     if isUdp s && s.medias.any (fun m => !(usablePort m.rtp && usablePort m.rtcp)) then bad else
-    (200, false, .record)
+    (statusOK, false, .record)
   | .pause =>
     if s.state == .initial then bad else
-    (200, false, if streaming s then .pause else .nothing)
-  | .teardown => (200, false, .teardown)
-  | .getParameter => (200, false, .nothing)
-  | .setParameter => if st.cfg.hSetParam then (200, false, .nothing) else (501, false, .nothing)
-  | _ => (501, false, .nothing)
+    (statusOK, false, if streaming s then .pause else .nothing)
+  | .teardown => (statusOK, false, .teardown)
+  | .getParameter => (statusOK, false, .nothing)
+  | .setParameter => if st.cfg.hSetParam then (statusOK, false, .nothing) else (statusNotImplemented, false, .nothing)
+  | _ => (statusNotImplemented, false, .nothing)
 
 /-- `sm.start()` of every media after PLAY: the RTCP port of each media is registered -/
 def startPlay (st : State) (s : Sess) : State :=
@@ -420,72 +424,78 @@ def applyAction (st : State) (c : ConnId) (s : Sess) : Action → State
     if isTcp s then setPhase st c .standard else st
   | .teardown => st
 
-/-- `handleRequestInSession` + `ServerSession.runInner` (case `chHandleRequest`).  Returns the new
-state, the verdict and the sessions that were opened. -/
-def inSession (st : State) (c : Conn) (r : Req) (create : Bool) : State × Nat × Bool × List Out :=
-  -- which session?
-  let target : Except (Nat × Bool) (State × Sess × List Out) :=
-    match c.session with
-    | some cur =>
-      match findSess st cur with
-      | some s =>
-        (match r.sess with
-         | .none => .ok (st, s, [])
-         | .id x => if x == cur then .ok (st, s, []) else .error (400, true)
-         | .bogus => .error (400, true))
-      | none => .error (400, true)      -- unreachable under the invariant
+/-- `handleRequestInSession`, first half: which session does the request go to?  `findOrCreateSession`
+when the connection has none; otherwise its own session (a different id is an error). -/
+def resolve (st : State) (c : Conn) (r : Req) (create : Bool) : Except Nat (State × Sess × List Out) :=
+  match c.session with
+  | some cur =>
+    match findSess st cur with
+    | some s =>
+      (match r.sess with
+       | .none => .ok (st, s, [])
+       | .id x => if x == cur then .ok (st, s, []) else .error statusBadRequest
+       | .bogus => .error statusBadRequest)
+    | none => .error statusBadRequest      -- unreachable under the invariant
+  | none =>
+    match (match r.sess with | .id x => findSess st x | _ => none) with
+    | some s => .ok (st, s, [])
     | none =>
-      match (match r.sess with | .id x => findSess st x | _ => none) with
-      | some s => .ok (st, s, [])
-      | none =>
-        if create then
-          let s : Sess := { id := st.nextSess, author := c.id, conns := [c.id] }
-          .ok ({ st with sessions := st.sessions ++ [s], nextSess := st.nextSess + 1 }, s, [Out.sessOpen s.id])
-        else .error (454, true)
-  match target with
-  | .error (status, e) => (st, status, e, [])
+      if create then
+        .ok ({ st with sessions := st.sessions ++ [{ id := st.nextSess, author := c.id, conns := [c.id] }],
+                       nextSess := st.nextSess + 1 },
+             { id := st.nextSess, author := c.id, conns := [c.id] }, [Out.sessOpen st.nextSess])
+      else .error statusSessionNotFound
+
+/-- `ServerSession.runInner`, case `chHandleRequest`: the session adds the connection to `ss.conns` -/
+def joinSess (s : Sess) (c : ConnId) : Sess :=
+  if s.conns.contains c then s else { s with conns := s.conns ++ [c] }
+
+/-- after a successful TEARDOWN the connection is detached and the session ends
+(`ErrServerSessionTornDown`) -/
+def tornDown (st : State) (c : Conn) (sid : SessId) : State × List Out :=
+  let st := setConn st { c with session := none, phase := if c.phase == .tcp then .standard else c.phase }
+  match findSess st sid with
+  | some s' => closeSess st { s' with conns := s'.conns.filter (· != c.id) }
+  | none => (st, [])
+
+/-- `handleRequestInSession` + `ServerSession.runInner` (case `chHandleRequest`).  Returns the new
+state, status, error flag and the session open / close outputs. -/
+def inSession (st : State) (c : Conn) (r : Req) (create : Bool) : State × Nat × Bool × List Out :=
+  match resolve st c r create with
+  | .error status => (st, status, true, [])
   | .ok (st, s, opened) =>
     -- the session adds the connection to `ss.conns`; the connection remembers the session
-    let s := if s.conns.contains c.id then s else { s with conns := s.conns ++ [c.id] }
-    let st := setSess st s
-    let c := { c with session := some s.id }
-    let st := setConn st c
-    let (status, e, act) := decideInSession st c s r
-    let st := applyAction st c.id s act
-    if act == .teardown then
-      -- the connection is detached, the session ends (`ErrServerSessionTornDown`)
-      let phase := if c.phase == .tcp then Phase.standard else c.phase
-      let st := setConn st { c with session := none, phase := phase }
-      match findSess st s.id with
-      | some s' =>
-        let (st, o) := closeSess st { s' with conns := s'.conns.filter (· != c.id) }
-        (st, status, e, opened ++ o)
-      | none => (st, status, e, opened)
-    else (st, status, e, opened)
+    let st := setConn (setSess st (joinSess s c.id)) { c with session := some s.id }
+    let v := decideInSession st { c with session := some s.id } (joinSess s c.id) r
+    let st := applyAction st c.id (joinSess s c.id) v.2.2
+    if v.2.2 == .teardown then
+      ((tornDown st { c with session := some s.id } s.id).1, v.1, v.2.1,
+        opened ++ (tornDown st { c with session := some s.id } s.id).2)
+    else (st, v.1, v.2.1, opened)
 
 /-- `ServerConn.handleRequestInner`: (state, status, error, extra outputs) -/
 def handleRequest (st : State) (c : Conn) (r : Req) : State × Nat × Bool × List Out :=
-  if !r.cseq then (st, 400, true, []) else
-  if r.method != .options && !r.url then (st, 400, true, []) else
+  if !r.cseq then (st, statusBadRequest, true, []) else
+  if r.method != .options && !r.url then (st, statusBadRequest, true, []) else
   let cfg := st.cfg
   let hasSess := r.sess != .none
   match r.method with
-  | .options => if hasSess then inSession st c r false else (st, 200, false, [])
+  | .options => if hasSess then inSession st c r false else (st, statusOK, false, [])
   | .describe =>
-    if cfg.hDescribe then (st, if r.known then 200 else 404, false, []) else (st, 501, false, [])
-  | .announce => if cfg.hAnnounce then inSession st c r true else (st, 501, false, [])
-  | .setup => if cfg.hSetup then inSession st c r true else (st, 501, false, [])
-  | .play => if hasSess && cfg.hPlay then inSession st c r false else (st, 501, false, [])
-  | .record => if hasSess && cfg.hRecord then inSession st c r false else (st, 501, false, [])
-  | .pause => if hasSess && cfg.hPause then inSession st c r false else (st, 501, false, [])
-  | .teardown => if hasSess then inSession st c r false else (st, 501, false, [])
+    if cfg.hDescribe then (st, if r.known then statusOK else statusNotFound, false, []) else (st, statusNotImplemented, false, [])
+  | .announce => if cfg.hAnnounce then inSession st c r true else (st, statusNotImplemented, false, [])
+  | .setup => if cfg.hSetup then inSession st c r true else (st, statusNotImplemented, false, [])
+  | .play => if hasSess && cfg.hPlay then inSession st c r false else (st, statusNotImplemented, false, [])
+  | .record => if hasSess && cfg.hRecord then inSession st c r false else (st, statusNotImplemented, false, [])
+  | .pause => if hasSess && cfg.hPause then inSession st c r false else (st, statusNotImplemented, false, [])
+  | .teardown => if hasSess then inSession st c r false else (st, statusNotImplemented, false, [])
   | .getParameter =>
     if hasSess then inSession st c r false
-    else if cfg.hGetParam then (st, 200, false, []) else (st, 501, false, [])
+    else if cfg.hGetParam then (st, statusOK, false, []) else (st, statusNotImplemented, false, [])
   | .setParameter =>
     if hasSess then inSession st c r false
-    else if cfg.hSetParam then (st, 200, false, []) else (st, 501, false, [])
-  | .unknown => (st, 501, false, [])
+    else if cfg.hSetParam then (st, statusOK, false, []) else (st, statusNotImplemented, false, [])
+  | .unknown => (st, statusNotImplemented, false, [])
 
 /-- close the connection with id `c` if it is (still) open -/
 def closeById (st : State) (c : ConnId) : State × List Out :=
